@@ -346,6 +346,11 @@ Http::One::RequestParser::doParse(const SBuf &aBuf)
     if (parsingStage_ == HTTP_PARSE_NONE) {
         skipGarbageLines();
 
+        // a lone CR may start an empty line that skipGarbageLines() tolerates
+        // but cannot recognize without the next byte; wait for that byte
+        if (Config.onoff.relaxed_header_parser && buf_.length() == 1 && buf_[0] == '\r')
+            return false;
+
         // if we hit something before EOS treat it as a message
         if (!buf_.isEmpty())
             parsingStage_ = HTTP_PARSE_FIRST;
